@@ -442,14 +442,6 @@ Proof.
 Qed.
 
 (* ---------------------------------------------------------------- the front end's guarantees *)
-(* [flat_ok_b]: what FlatGraphBuilder guarantees about a flat graph and the model needs; decidable,
-   and evaluated on every real flat graph by the C18 check (bit 0). *)
-Definition flat_ok_b (T : optable) (g : graph) : bool :=
-  nodup_b (node_ids g) && nodup_b (map e_id (g_edges g)) &&
-  forallb (fun e => memN (e_src e) (node_ids g) && memN (e_dst e) (node_ids g)) (g_edges g) &&
-  deps_closed_b T g &&
-  forallb (fun n => match n_kind n with KMod => false | _ => true end) (g_nodes g).
-
 Lemma sinsert_length x l : (length (sinsert x l) <= S (length l))%nat.
 Proof. induction l as [|y r IH]; simpl; [lia|]. destruct (N.compare x y); simpl; lia. Qed.
 Lemma sort_dedup_length l : (length (sort_dedup l) <= length l)%nat.
